@@ -18,6 +18,8 @@ static READS: AtomicUsize = AtomicUsize::new(0);
 const WR_MBX: u16 = 0x1000;
 const RD_MBX: u16 = 0x1080;
 const MBX_LEN: u16 = 32;
+/// mailbox size configured for the device (tests that need the smallest mailbox of C15's quantifier set 16)
+static MBX_CFG: std::sync::atomic::AtomicU16 = std::sync::atomic::AtomicU16::new(MBX_LEN);
 
 /// mailbox header (6) + CoE header (2): `len` = mailbox length field, service in the top nibble of byte 7
 fn mbx(len: u16, service: u8) -> Vec<u8> {
@@ -106,8 +108,9 @@ fn with_device<R: Send + 'static>(
     let md = maindevice.clone();
     let res = thread::Builder::new().stack_size(256 << 20).spawn(move || {
         let mut sd = SubDevice { configured_address: 0x1001, ..Default::default() };
-        sd.config.mailbox.read = Some(Mailbox { address: RD_MBX, len: MBX_LEN, sync_manager: 1 });
-        sd.config.mailbox.write = Some(Mailbox { address: WR_MBX, len: MBX_LEN, sync_manager: 0 });
+        let mlen = MBX_CFG.load(Ordering::SeqCst);
+        sd.config.mailbox.read = Some(Mailbox { address: RD_MBX, len: mlen, sync_manager: 1 });
+        sd.config.mailbox.write = Some(Mailbox { address: WR_MBX, len: mlen, sync_manager: 0 });
         sd.config.mailbox.has_coe = true;
         f(md, &sd)
     })
@@ -132,8 +135,23 @@ fn d11_emergency_reply_is_an_error_not_a_panic() {
         read16,
     );
     let res = res.expect("sdo_read panicked on an emergency reply");
-    // (the decoded code/register are read 4 bytes too far into the message - noted in DESIGN.md, outside C15's statement)
     assert!(matches!(res, Err(Error::Mailbox(MailboxError::Emergency { .. }))), "{:?}", res);
+}
+
+#[test]
+fn d24_emergency_is_decoded_where_it_is() {
+    // ETG1000.6 table 50: mailbox header (6) + CoE header (2) + error code (2) + error register (1) + data (5) = 16 bytes.
+    // The code skipped 12 bytes (the SDO header shape) before decoding: the reported code came from the data bytes ...
+    let emcy = |_| { let mut v = mbx(0x0a, 0x01); v[8..10].copy_from_slice(&0x8130u16.to_le_bytes()); v[10] = 0x11; v[11..16].copy_from_slice(&[1, 2, 3, 4, 5]); v };
+    let (res, _) = with_device(emcy, read16);
+    let res = res.expect("panicked");
+    assert!(matches!(res, Err(Error::Mailbox(MailboxError::Emergency { error_code: 0x8130, error_register: 0x11 }))), "32-byte mailbox: {:?}", res);
+    // ... and in a 16-byte mailbox (the smallest that holds an emergency message) it was not an emergency error at all
+    MBX_CFG.store(16, Ordering::SeqCst);
+    let (res, _) = with_device(emcy, read16);
+    MBX_CFG.store(MBX_LEN, Ordering::SeqCst);
+    let res = res.expect("panicked");
+    assert!(matches!(res, Err(Error::Mailbox(MailboxError::Emergency { error_code: 0x8130, error_register: 0x11 }))), "16-byte mailbox: {:?}", res);
 }
 
 #[test]
